@@ -73,6 +73,8 @@ pub struct CModel {
     pub disconnect_notices: u32,
     /// accepted indexes received through a shared group, in arrival order
     pub shared_seen: Vec<u32>,
+    /// topic aliases this connection established as a publisher
+    pub alias_in: BTreeMap<u16, String>,
 }
 
 #[derive(Clone, Debug, Default, Hash)]
@@ -197,6 +199,7 @@ impl Model {
             c.replies_optional.clear();
             c.outstanding.clear();
             c.q2_recorded.clear();
+            c.alias_in.clear();
             !c.clean && c.had_session
         };
         if !resume {
@@ -395,8 +398,24 @@ impl Model {
                 props,
                 ..
             } => {
+                // MQTT 5, 3.3.2.3.4: a non-empty topic with an alias establishes the mapping
+                // when the PUBLISH is received; an empty topic is resolved through it
+                let mut topic = topic.clone();
+                if let Some(a) = props.as_ref().and_then(|p| p.alias) {
+                    if topic.is_empty() {
+                        match self.clients[ci].alias_in.get(&a) {
+                            Some(t) => topic = t.clone(),
+                            None => {
+                                self.closing(ci);
+                                return;
+                            }
+                        }
+                    } else {
+                        self.clients[ci].alias_in.insert(a, topic.clone());
+                    }
+                }
                 let m = Msg {
-                    topic: topic.clone(),
+                    topic,
                     payload: payload.clone(),
                     from: ci,
                     qos: *qos,
